@@ -21,9 +21,9 @@ import (
 // join computed here, as a multiset.
 
 type c04Cmp struct {
-	L     string `json:"l"`  // left-table column
-	R     string `json:"r"`  // right-table column
-	Op    string `json:"op"` // = != < <= > >=
+	L     string `json:"l"`              // left-table column
+	R     string `json:"r"`              // right-table column
+	Op    string `json:"op"`             // = != < <= > >=
 	Flip  bool   `json:"flip,omitempty"` // written as  y.R <op'> x.L
 	IsStr bool   `json:"str,omitempty"`
 }
@@ -343,7 +343,9 @@ func corpusC04() []*Bundle {
 		c := oneClientCase("C04", casefmt.SimConfig{Strategy: strat, Seed: 5, WalkP: 0.5, MapPolicy: "reverse"}, map[string]any{"t": left, "u": right}, casefmt.Op{Doc: 0, Vars: -1})
 		return &Bundle{Prop: "C04", Kind: "corpus:" + name, Case: c, Expect: mustJSON(exp), Tags: []string{"corpus", "type:" + typ}}
 	}
-	leaf := func(l, r, op string, flip bool) *c04Node { return &c04Node{Leaf: &c04Cmp{L: l, R: r, Op: op, Flip: flip}} }
+	leaf := func(l, r, op string, flip bool) *c04Node {
+		return &c04Node{Leaf: &c04Cmp{L: l, R: r, Op: op, Flip: flip}}
+	}
 	and := func(a, b *c04Node) *c04Node { return &c04Node{Conn: "AND", Left: a, Right: b} }
 	or := func(a, b *c04Node) *c04Node { return &c04Node{Conn: "OR", Left: a, Right: b} }
 	// the cases named in the statement and in the pinned tree's defects
